@@ -47,8 +47,9 @@ PROPS = {
     "C13": dict(parts=[Z("C13", scen="pool")], quick=12000, thorough=600000, nontrivial=["work_done"], level="exploration"),
     "C19": dict(parts=[Z("C19", scen="popen")], quick=20000, thorough=1000000, nontrivial=["popen_kill"], level="exploration"),
     "C14": dict(parts=[Z("C08", "tsan", w=3), Z("C09", "tsan", w=2), Z("C18", "tsan", w=2), Z("C12", "tsan", w=3, scen="pool"),
-                       Z("C13", "tsan", w=2, scen="pool"), Z("C10", "tsan", w=2, scen="sig"), Z("C11", "tsan", w=3, scen="wait")],
-                quick=9000, thorough=400000, quick_s=80, nontrivial=[],
+                       Z("C13", "tsan", w=2, scen="pool"), Z("C10", "tsan", w=2, scen="sig"), Z("C11", "tsan", w=3, scen="wait"),
+                       Z("C20", "tsan", w=1, scen="inot")],
+                quick=9500, thorough=400000, quick_s=85, nontrivial=[],
                 nontrivial_any=["post_cross", "sim_libthreads", "sim_sigdel", "sim_reaps"], level="exploration"),
     "C15": dict(parts=[Z("C15", mode="enum", w=4), Z("C17", scen="pump", mode="enum", w=1), Z("C09", mode="enum", w=2)], quick=300, thorough=12000, nontrivial=["block"], level="fault_enumeration"),
     "C17": dict(parts=[Z("C17", scen="pump")], quick=6000, thorough=300000, nontrivial=["pump_bytes"], level="exploration"),
